@@ -161,20 +161,25 @@ def run_pipeline(prop, tier, seed):
     rep.cov["vacuity_guards"] = guards
 
     # 2. behaviours from the spec
-    gens = [("PreloadGen.cfg", None)]
+    gens = [("PreloadGen.cfg", None), ("PreloadGen3.cfg", None)]
     if tier == "thorough":
-        gens.append(("PreloadGen3.cfg", None))
+        gens.append(("PreloadGen4s.cfg", None))
     behs = []
     for cfg, _ in gens:
         r = c.run_tlc("PreloadMC.tla", cfg, heap="24g")
         rep.tlc(r)
         behs += [json.loads(x) for x in r.printed]
     if tier == "quick" and len(behs) > 9000:
-        # keep every single-line and empty/absent file, sample the rest
+        # keep every single-line and empty/absent file, sample the two- and three-line ones (three-line files with the own entry
+        # in the middle -- something above and below it -- first)
         small = [x for x in behs if len(x[0]["disk"]["lines"]) <= 1]
-        big = [x for x in behs if len(x[0]["disk"]["lines"]) > 1]
-        rnd.shuffle(big)
-        behs = small + big[:9000 - min(len(small), 9000)]
+        two = [x for x in behs if len(x[0]["disk"]["lines"]) == 2]
+        three = [x for x in behs if len(x[0]["disk"]["lines"]) == 3]
+        mid = [x for x in three if x[0]["disk"]["lines"][1][:1] == ["OWN"]]
+        oth = [x for x in three if x[0]["disk"]["lines"][1][:1] != ["OWN"]]
+        for l_ in (two, mid, oth):
+            rnd.shuffle(l_)
+        behs = small + two[:5000] + mid[:3500] + oth[:1500]
     c.log("[%s] %d behaviours to replay" % (prop, len(behs)))
 
     # 3. replay on the real snoopyctl
